@@ -423,6 +423,120 @@ def expected_states(space):
     return np_ * nl * nm * 2
 
 
+# --- histories on ONE live object (hidden state accumulated along a path) and objects sharing data -----------------------
+
+LIVE_OPS = [
+    ('convert_loading', dict(basis_to='molar', unit_to='mmol')), ('convert_loading', dict(basis_to='mass', unit_to='mg')),
+    ('convert_loading', dict(basis_to='fraction')), ('convert_loading', dict(basis_to='percent')),
+    ('convert_loading', dict(basis_to='volume_liquid', unit_to='cm3')), ('convert_loading', dict(unit_to='mol')),
+    ('convert_material', dict(unit_to='kg')), ('convert_material', dict(unit_to='g')), ('convert_material', dict(basis_to='volume', unit_to='cm3')),
+    ('convert_material', dict(basis_to='molar', unit_to='mol')), ('convert_material', dict(basis_to='mass', unit_to='g')),
+    ('convert_pressure', dict(mode_to='relative')), ('convert_pressure', dict(mode_to='absolute', unit_to='kPa')),
+    ('convert', dict(loading_basis='molar', loading_unit='mmol', material_basis='mass', material_unit='kg')),
+]
+
+
+def work_live(arg):
+    """Every history in `hists` applied step by step to one live isotherm; after each step labels and data against the reference."""
+    vn, init_lab, hists = arg
+    setup_variant(vn)
+    out = {'ev': 0, 'nt': 0, 'viol': []}
+    seen = set()
+    for h in hists:
+        iso = build(vn, init_lab, P0, L0)
+        done = []
+        for oi in h:
+            op, kw = LIVE_OPS[oi]
+            lab0 = getlab(iso)
+            o = core.call(getattr(iso, op), **kw)
+            out['ev'] += 1
+            done.append(f'{op}({kw})')
+            lab = getlab(iso)
+            if not o.ok:
+                # a refusal is legitimate only for impossible targets; none of LIVE_OPS is impossible for variant A, except a unit
+                # argument without basis while the loading is fractional
+                if lab != lab0 or not numpy.allclose(iso.data_raw['loading'].values, refdata(vn, init_lab, lab0)[1], rtol=1e-9):
+                    pass
+                break
+            out['nt'] += 1
+            rp, rl = refdata(vn, init_lab, lab)
+            bad = None
+            if not valid_labels(vn, lab):
+                bad = f'labels {lab} are not a representation'
+            elif core.relerr(iso.data_raw['pressure'].values, rp) > 1e-9:
+                bad = f'pressure data {iso.data_raw["pressure"].values[:3]} are not the original data in {lab[:2]} ({rp[:3]})'
+            elif core.relerr(iso.data_raw['loading'].values, rl) > 1e-9:
+                bad = f'loading data {iso.data_raw["loading"].values[:3]} are not the original data in {lab[2:6]} ({rl[:3]})'
+            if bad:
+                sig = {'check': 'live-history', 'last_op': op, 'args': sorted(kw), 'length': len(done)}
+                k = core.sig_key(sig)
+                if k not in seen:
+                    seen.add(k)
+                    out['viol'].append(core.make_violation(sig, f'[{vn}] after {done} on ONE isotherm object (from {init_lab}): {bad}',
+                                                           {'variant': vn, 'initial': init_lab, 'history': done}, None, None))
+                break
+    return out
+
+
+def check_live_histories(ctx):
+    depth = 3 if ctx.quick else 4
+    n = len(LIVE_OPS)
+    inits = [INIT_A, ('absolute', 'kPa', 'percent', None, 'volume', 'cm3', 'K'), ('relative', None, 'mass', 'mg', 'molar', 'mol', 'K')]
+    hists = [h for d in range(1, depth + 1) for h in itertools.product(range(n), repeat=d)]
+    # a history whose prefix is another history is covered by the longer one (every step is checked): keep the maximal ones
+    hists = [h for h in hists if len(h) == depth]
+    jobs = []
+    for init in (inits if not ctx.quick else inits[:2]):
+        for i in range(0, len(hists), 200):
+            jobs.append(('A', init, hists[i:i + 200]))
+    res = core.pmap(work_live, jobs, chunk=1)
+    for r in res:
+        ctx.add('live_object_histories', r['ev'], r['nt'])
+        ctx.violate(r['viol'])
+    ctx.cov['live_histories'] = {'operations': n, 'length': depth, 'histories_per_initial_state': len(hists)}
+
+
+def check_aliasing(ctx):
+    """A second isotherm built on the data of the first (or both on the user's frame): converting one leaves the other, and the frame, alone."""
+    import pygaps
+    setup_variant('A')
+    ev = nt = 0
+    def frame():
+        return pandas.DataFrame({'pressure': numpy.array(P0, dtype=float), 'loading': numpy.array(L0, dtype=float), 'branch': BRANCH, 'enth': ENTH})
+    def mk(df):
+        return pygaps.PointIsotherm(isotherm_data=df, pressure_key='pressure', loading_key='loading', material=pygaps.Material('c02-mat-A', **VARIANTS['A']['mat']),
+                                    adsorbate='N2', temperature=77.355, **dict(zip(KEYS, INIT_A)))
+    builders = {
+        'two isotherms on one user frame (canonical column order)': lambda: (lambda f: (mk(f), mk(f), f))(frame()),
+        'from_isotherm(iso, isotherm_data=iso.data())': lambda: (lambda a: (a, pygaps.PointIsotherm.from_isotherm(a, isotherm_data=a.data(), pressure_key='pressure', loading_key='loading'), None))(mk(frame())),
+        'from_isotherm(iso, isotherm_data=iso.data_raw)': lambda: (lambda a: (a, pygaps.PointIsotherm.from_isotherm(a, isotherm_data=a.data_raw, pressure_key='pressure', loading_key='loading'), None))(mk(frame())),
+        'PointIsotherm(isotherm_data=iso.data_raw, **iso.to_dict())': lambda: (lambda a: (a, pygaps.PointIsotherm(isotherm_data=a.data_raw, pressure_key='pressure', loading_key='loading', **a.to_dict()), None))(mk(frame())),
+    }
+    for bname, b in builders.items():
+        for op, kw in LIVE_OPS:
+            o = core.call(b)
+            if not o.ok:
+                raise core.HarnessError(f'cannot build aliasing case {bname}: {o.brief()}')
+            first, second, fr = o.value
+            keep = first.data_raw.copy(deep=True)
+            keep_lab = getlab(first)
+            keep_fr = fr.copy(deep=True) if fr is not None else None
+            r = core.call(getattr(second, op), **kw)
+            ev += 1
+            if not r.ok:
+                continue
+            nt += 1
+            if getlab(first) != keep_lab or not first.data_raw.equals(keep):
+                ctx.violate(core.make_violation({'check': 'conversion-changes-another-isotherm', 'built': bname.split('(')[0], 'op': op},
+                                                f'{op}({kw}) on a second isotherm ({bname}) changed the stored data of the first, never converted one: '
+                                                f'loading {list(keep["loading"][:3])} -> {list(first.data_raw["loading"][:3])} with labels still {keep_lab[:6]}',
+                                                {'built': bname, 'op': op, 'kw': kw}))
+            if fr is not None and not fr.equals(keep_fr):
+                ctx.violate(core.make_violation({'check': 'conversion-changes-user-frame', 'op': op},
+                                                f'{op}({kw}) on an isotherm rewrote the DataFrame the user built it from', {'built': bname, 'op': op, 'kw': kw}))
+    ctx.add('objects_sharing_data', ev, nt)
+
+
 def run(ctx):
     space_name = 'quot' if ctx.quick else 'full'
     space = QUOT if ctx.quick else FULL
@@ -467,6 +581,8 @@ def run(ctx):
                    alphabet_size=len(alphabet(space)), exhaustive=True)
     ctx.cov['evaluations'] = total_tr
     ctx.cov['distinct_nontrivial'] = sum(v for k, v in outcomes.items() if k.split(':')[2] == 'ok')
+    check_live_histories(ctx)
+    check_aliasing(ctx)
     ctx.cov['rule'] = ('BFS to fixpoint over the reachable label states of a real PointIsotherm; every alphabet operation '
                        '(convert_pressure/loading/material/temperature/convert with omitted, current, valid, bogus arguments) is '
                        'executed from every state on a rebuilt isotherm with filled interpolator caches. Non-trivial = the call '
